@@ -39,15 +39,23 @@ def findings():
     return f"{nf} fixed, {no} open.\n\n" + '\n'.join(rows)
 
 def seeded():
-    rows = ["| id | property | change | trigger | caught by (quick tier) | missed by |", "|---|---|---|---|---|---|"]
-    n = 0
+    rows = ["| id | property | change | trigger | caught by (quick tier) | own check misses it? | other checks tried, silent | history |", "|---|---|---|---|---|---|---|---|"]
+    n = own_caught = 0
     for d in sorted(glob.glob(f'{V}/seeded/*/meta.json')):
         me = json.load(open(d))
         sid = os.path.basename(os.path.dirname(d))
         r = me.get('eval', {})
-        rows.append(f"| {sid} | {me.get('property')} | {esc(me.get('title',''))[:160]} | {esc(me.get('what_triggers',''))[:200]} | {esc(', '.join(r.get('caught_by', [])))} {esc(r.get('note',''))[:200]} | {esc(', '.join(r.get('missed_by', [])))} |")
+        prop = me.get('property')
+        caught = r.get('caught_by', [])
+        missed = r.get('missed_by', [])
+        own = 'no' if prop in caught else ('YES' if prop in missed else ('n/a (caught by ' + ', '.join(caught) + ')' if caught else 'not evaluated'))
+        if prop in caught:
+            own_caught += 1
+        others = [x for x in missed if x != prop]
+        tests = '; '.join(t.split(' module=')[0].replace('TESTS-', '') + ' ' + t.split('module=')[1].split(' ')[0] for t in r.get('tests', []) if 'module=' in t)
+        rows.append(f"| {sid} | {prop} | {esc(me.get('title',''))[:160]} | {esc(me.get('what_triggers',''))[:220]} | {esc(', '.join(caught))} | {own} | {esc(', '.join(others))} | {esc(r.get('note',''))[:400]} {('(repository tests on the patched tree: ' + tests + ')') if tests else ''} |")
         n += 1
-    return f"{n} confirmed seeded breaks.\n\n" + '\n'.join(rows)
+    return f"{n} confirmed seeded breaks; {own_caught} are caught by the quick tier of the check of the property they were written against.\n\n" + '\n'.join(rows)
 
 s = open(f'{V}/DESIGN.md').read()
 for name, fn in (('CHECKS', checks), ('FINDINGS', findings), ('SEEDED', seeded)):
